@@ -13,6 +13,7 @@
   Core Lean only.
 -/
 import SkyllhModel.Model.Rng
+import SkyllhModel.Model.Livetime
 
 namespace Rng
 
@@ -220,14 +221,33 @@ def getNcpu (cfgNcpu loc : Option Int) : Except Err Nat :=
 
 /-! ### labels of the rows appended by `extend_trial_data_file` with several processes -/
 
-/-- the distinct seed labels of the appended rows: the seed the extension runs with (master rows)
-followed by the worker seeds drawn from that seed's stream -/
+/-- the distinct seed labels of the `n ≥ 1` appended rows: the seed the extension runs with (master
+rows) followed by the seeds of the workers that got at least one task (`np.array_split` chunks) -/
 def extendLabels {V : Type} (gen : Nat → Nat → V) (toSeed : V → Nat) (start : Nat) (file : List Nat)
-    (cur pos ncpu : Nat) : List Nat :=
+    (cur pos n ncpu : Nat) : List Nat :=
   let s := extendSeed start file cur
   -- the service is reseeded only when its seed occurs in the file; otherwise it continues at `pos`
   let st : Stream := if cur ∈ file then Stream.fresh s else ⟨s, pos⟩
-  s :: workerSeeds gen toSeed st ncpu
+  s :: (((workerSeeds gen toSeed st ncpu).zip (chunkSizes n ncpu).tail).filter (fun sk => decide (0 < sk.2))).map
+    (fun sk => sk.1)
+
+/-! ### the time-generation service, code-shaped
+
+`Livetime.draw_ontimes(rss, size, t_min, t_max)` (and `TimeGenerator.generate_times`, which hands
+everything through): `x = rss.random.uniform(0, 1, size)`, then the inverse CDF of the (window
+restricted) up-time intervals per deviate — `Livetime.drawWin` of `Model/Livetime.lean` (C14).
+Nothing is kept on the object: the cache cell of `TimeCfg` is handed back untouched. -/
+
+section timeCode
+variable {V F : Type} [LE F] [LT F] [DecidableLE F] [DecidableLT F] [Add F] [Sub F] [Mul F] [OfNat F 0]
+
+def ltCfg (toU : (Nat → V) → Nat → F) :
+    TimeCfg V (List (F × F)) (Option F × Option F) (Option (List F)) Unit where
+  draw ivs c win size view :=
+    (allSome ((List.range size).map (fun k =>
+      Livetime.drawWin ivs (win.bind (fun p => p.1)) (win.bind (fun p => p.2)) (toU view k))), c)
+
+end timeCode
 
 /-! ### create_trial_data_file / extend_trial_data_file: the grid of signal strengths -/
 
@@ -271,6 +291,16 @@ deriving DecidableEq, Repr
 section createFile
 variable {V D R G : Type}
 
+/-- `do_trials` with the store it leaves behind also when it raises: `get_ncpu` raises before
+anything is touched; with `n = 0` and several processes the worker seeds have already been drawn
+from the caller's service when `result_list[0]` fails -/
+def doTrialsPost (gen : Nat → Nat → V) (toSeed : V → Nat) (cfg : TrialCfg V D R) (n ncpu : Nat)
+    (w : World) (a : Nat) (ms : Option Nat) : Except Err (ParOut D R) × World :=
+  match doTrials gen toSeed cfg n ncpu w a ms with
+  | .ok r => (.ok r, r.world)
+  | .error .valueError => (.error .valueError, w)
+  | .error .indexError => (.error .indexError, if ncpu ≤ 1 then w else w.set a ((w a).adv (ncpu - 1)))
+
 /-- the loop of `create_trial_data_file` over the grid points (`itertools.product` of the two
 grids, flattened here): one `do_trials` call per point, all on the same services; the first
 raising call ends it (post-state returned) -/
@@ -278,10 +308,10 @@ def createLoop (gen : Nat → Nat → V) (toSeed : V → Nat) (cfgOf : G → Tri
     (a : Nat) (ms : Option Nat) : List G → World → Except FErr (List (TrialOut D R)) × World
   | [], w => (.ok [], w)
   | g :: rest, w =>
-    match doTrials gen toSeed (cfgOf g) n ncpu w a ms with
-    | .error .valueError => (.error .valueError, w)
-    | .error .indexError => (.error .indexError, w)
-    | .ok r =>
+    match doTrialsPost gen toSeed (cfgOf g) n ncpu w a ms with
+    | (.error .valueError, w1) => (.error .valueError, w1)
+    | (.error .indexError, w1) => (.error .indexError, w1)
+    | (.ok r, _) =>
       match createLoop gen toSeed cfgOf n ncpu a ms rest r.world with
       | (.ok rows, w') => (.ok (r.outs ++ rows), w')
       | (.error e, w') => (.error e, w')
